@@ -40,7 +40,7 @@ Section Proofs.
   Proof.
     intros extras m. unfold in_domain, domain_class. rewrite first_class_forallb.
     destruct (first_class env go_valid spec_sat (atoms m) =? 0) eqn:E; cbn [andb negb].
-    - destruct (all_same (extra_lits m)), (forallb (fun e => bytes_eqb (canonicalize_name e) e) extras); reflexivity.
+    - destruct (all_same (requested_lits extras m)), (forallb (fun e => bytes_eqb (canonicalize_name e) e) extras); reflexivity.
     - rewrite E. reflexivity.
   Qed.
 End Proofs.
